@@ -54,43 +54,23 @@ Record tview := mkTV {
   tv_pnx : mptr;                  (* ... and the value of its next field *)
   tv_inG : list nat;              (* nodes I know to be linked *)
   tv_idx : list (nat * nat);      (* (x, i): x sits at index i of the chain and i <= length dpre (deleted prefix) *)
-  tv_hlow : nat;                  (* a lower bound of head's index *)
-  tv_wit : option nat             (* enqueuer: a node I saw as the last one (next == null) during this call *)
+  tv_hlow : nat                   (* a lower bound of head's index *)
 }.
 
-(** [born x]: how many operations had been invoked when node x was linked; [ninv]: invoked so far *)
-Record Aux := mkAux { dpre : list nat; bnd : nat; live : list nat; hidx : nat; views : nat -> tview;
-                      born : nat -> nat; ninv : nat }.
+Record Aux := mkAux { dpre : list nat; bnd : nat; live : list nat; hidx : nat; views : nat -> tview }.
 Definition view (a : Aux) (t : nat) : tview := views a t.
 Definition updv (vs : nat -> tview) (t : nat) (v : tview) : nat -> tview :=
   fun x => if Nat.eqb x t then v else vs x.
-Definition auxv (a : Aux) (t : nat) (v : tview) : Aux :=
-  mkAux (dpre a) (bnd a) (live a) (hidx a) (updv (views a) t v) (born a) (ninv a).
+Definition auxv (a : Aux) (t : nat) (v : tview) : Aux := mkAux (dpre a) (bnd a) (live a) (hidx a) (updv (views a) t v).
 Definition GG (a : Aux) : list nat := dpre a ++ bnd a :: live a.
 Definition nptr (g : G) (x : nat) : option nat := fst (nxt g x).
 
-(** the nodes behind [x] in the chain *)
-Fixpoint after (x : nat) (l : list nat) : list nat :=
-  match l with
-  | [] => []
-  | y :: r => if Nat.eqb y x then r else after x r
-  end.
-
-Definition st_op (s : pst) : option qop := match s with PPend o _ _ => Some o | _ => None end.
-Definition st_id (s : pst) : nat := match s with PPend _ id _ => id | _ => 0 end.
-Definition st_ob (s : pst) : bool := match s with PPend _ _ ob => ob | _ => false end.
-
 Definition tv_ok (g : G) (a : Aux) (v : tview) : Prop :=
   (forall n, tv_priv v = Some n ->
-     (n < nalloc g)%nat /\ ~ In n (GG a) /\ nxt g n = tv_pnx v /\ st_op (tv_st v) = Some (Enq (val g n))) /\
+     (n < nalloc g)%nat /\ ~ In n (GG a) /\ nxt g n = tv_pnx v /\ tv_st v = PPend (Enq (val g n))) /\
   (forall m, In m (tv_inG v) -> In m (GG a)) /\
   (forall x i, In (x, i) (tv_idx v) -> nth_error (GG a) i = Some x /\ (i <= List.length (dpre a))%nat) /\
-  (tv_hlow v <= hidx a)%nat /\
-  (st_id (tv_st v) <= ninv a)%nat /\
-  (forall tl, tv_wit v = Some tl ->
-     In tl (GG a) /\ forall y, In y (after tl (GG a)) -> (st_id (tv_st v) <= born a y)%nat).
-
-Definition aitem (g : G) (a : Aux) (x : nat) : item := (val g x, born a x).
+  (tv_hlow v <= hidx a)%nat.
 
 Record Inv (g : G) (a : Aux) (tr : list (nat * ev)) : Prop := mkInv {
   I_nodup : NoDup (GG a);
@@ -102,7 +82,7 @@ Record Inv (g : G) (a : Aux) (tr : list (nat * ev)) : Prop := mkInv {
   I_tail : In (tail g) (GG a);
   I_views : forall t, tv_ok g a (views a t);
   I_privs : forall t t' n, t <> t' -> tv_priv (views a t) = Some n -> tv_priv (views a t') <> Some n;
-  I_pool : PoolInv (map (aitem g a) (live a)) (fun t => tv_st (views a t)) (ninv a) (hist tr)
+  I_pool : PoolInv (map (val g) (live a)) (fun t => tv_st (views a t)) (hist tr)
 }.
 
 Lemma updv_same vs t v : updv vs t v t = v.
@@ -129,9 +109,9 @@ Proof.
   - apply H. exact Hne.
 Qed.
 
-Lemma pool_upd q (vs : nat -> tview) n h t v' :
-  PoolInv q (fun x => tv_st (vs x)) n h -> tv_st v' = tv_st (vs t) ->
-  PoolInv q (fun x => tv_st (updv vs t v' x)) n h.
+Lemma pool_upd q (vs : nat -> tview) h t v' :
+  PoolInv q (fun x => tv_st (vs x)) h -> tv_st v' = tv_st (vs t) ->
+  PoolInv q (fun x => tv_st (updv vs t v' x)) h.
 Proof.
   intros H E. eapply pool_ext; [|exact H]. intros x. cbn. others x t Hne; auto.
 Qed.
@@ -145,44 +125,15 @@ Lemma tv_ok_mono g a g' a' v :
   (forall x i, nth_error (GG a) i = Some x -> (i <= List.length (dpre a))%nat ->
      nth_error (GG a') i = Some x /\ (i <= List.length (dpre a'))%nat) ->
   (hidx a <= hidx a')%nat ->
-  (ninv a <= ninv a')%nat ->
-  (forall tl y, In tl (GG a) -> In y (after tl (GG a')) ->
-     (In y (after tl (GG a)) /\ born a' y = born a y) \/ (ninv a <= born a' y)%nat) ->
   tv_ok g' a' v.
 Proof.
-  intros (P1 & P2 & P3 & P4 & P5 & P6) Hp Hl Hi Hh Hn Ha. split; [|split; [|split; [|split; [|split]]]].
+  intros (P1 & P2 & P3 & P4) Hp Hl Hi Hh. split; [|split; [|split]].
   - intros n E. destruct (P1 n E) as (A & B & C & D). destruct (Hp n E A B) as (A' & B' & C' & D').
     repeat split; auto; congruence.
   - intros m E. auto.
   - intros x i E. destruct (P3 x i E). auto.
   - lia.
-  - lia.
-  - intros tl E. destruct (P6 tl E) as (Q1 & Q2). split; [auto|].
-    intros y Hy. destruct (Ha tl y Q1 Hy) as [(A & B)|A]; [rewrite B; eauto|lia].
 Qed.
-
-Lemma after_incl x l y : In y (after x l) -> In y l.
-Proof.
-  induction l as [|z l IH]; cbn; [auto|]. destruct (Nat.eqb z x); [now right|]. intros H. right. auto.
-Qed.
-
-Lemma after_insert x (P Q : list nat) n y :
-  n <> x -> In y (after x (P ++ n :: Q)) -> y = n \/ In y (after x (P ++ Q)).
-Proof.
-  intros Hn. induction P as [|p P IH]; cbn [app after].
-  - destruct (Nat.eqb_spec n x) as [->|_]; [contradiction|]. auto.
-  - destruct (Nat.eqb p x); [|exact IH].
-    intros H. apply in_app_or in H. destruct H as [H|[H|H]];
-      [right; apply in_or_app; now left|now left|right; apply in_or_app; now right].
-Qed.
-
-Lemma after_notin x (P R : list nat) : ~ In x P -> after x (P ++ x :: R) = R.
-Proof.
-  induction P as [|p P IH]; cbn [app after]; intros H.
-  - now rewrite Nat.eqb_refl.
-  - destruct (Nat.eqb_spec p x) as [->|_]; [exfalso; apply H; now left|]. apply IH. intros H'. apply H. now right.
-Qed.
-
 
 (** ** steps that do not touch the chain or the pool status *)
 Lemma Inv_acc g a tr t k o b : Inv g a tr -> Inv g a (tr ++ Conc.tag t [EvAcc k o b]).
@@ -205,13 +156,12 @@ Lemma Inv_setv g a tr t v' :
   (forall m, In m (tv_inG v') -> In m (GG a)) ->
   (forall x i, In (x, i) (tv_idx v') -> nth_error (GG a) i = Some x /\ (i <= List.length (dpre a))%nat) ->
   (tv_hlow v' <= hidx a)%nat ->
-  tv_wit v' = tv_wit (views a t) ->
   Inv g (auxv a t v') tr.
 Proof.
-  intros [H1 H2 H3 H4 H5 H6 H7 H8 H9 H10] Es Ep Ex Hg Hi Hh Hw.
-  constructor; auto; unfold auxv, GG in *; cbn [dpre bnd live hidx views born ninv] in *.
+  intros [H1 H2 H3 H4 H5 H6 H7 H8 H9 H10] Es Ep Ex Hg Hi Hh.
+  constructor; auto; unfold auxv, GG in *; cbn [dpre bnd live hidx views] in *.
   - intros x. others x t Hne; [|apply H8].
-    destruct (H8 t) as (P1 & _ & _ & _ & P5 & P6). split; [|rewrite Es, Hw; auto].
+    destruct (H8 t) as (P1 & _). split; [|auto].
     intros n E. rewrite Ep in E. rewrite Es, Ex. apply (P1 n E).
   - apply privs_upd; [exact H9|]. intros n E x Hx. rewrite Ep in E. apply (H9 t x n); auto.
   - apply pool_upd; auto.
@@ -226,14 +176,14 @@ Proof. intros [H1 H2 H3 H4 H5 H6 H7 H8 H9 H10] Hx. constructor; auto. Qed.
 (** ** invoke / response / "empty" decision *)
 Lemma Inv_pev g a tr t (e : pev) es s' :
   Inv g a tr ->
-  tv_priv (views a t) = None -> st_id s' = 0%nat ->
+  tv_priv (views a t) = None ->
   (forall f : pmap, f t = tv_st (views a t) ->
-     pstep (mkPS (map (aitem g a) (live a)) f (ninv a)) e = Some (mkPS (map (aitem g a) (live a)) (pupd f t s') (ninv a))) ->
+     pstep (map (val g) (live a), f) e = Some (map (val g) (live a), pupd f t s')) ->
   hist (Conc.tag t es) = perase [e] ->
-  Inv g (auxv a t (mkTV s' None mnull [] [] 0 None)) (tr ++ Conc.tag t es).
+  Inv g (auxv a t (mkTV s' None mnull [] [] 0)) (tr ++ Conc.tag t es).
 Proof.
-  intros [H1 H2 H3 H4 H5 H6 H7 H8 H9 H10] Hp Hid Hstep He.
-  constructor; auto; unfold auxv, GG in *; cbn [dpre bnd live hidx views born ninv] in *.
+  intros [H1 H2 H3 H4 H5 H6 H7 H8 H9 H10] Hp Hstep He.
+  constructor; auto; unfold auxv, GG in *; cbn [dpre bnd live hidx views] in *.
   - intros x. others x t Hne; [|apply H8]. facts_nil.
   - apply privs_upd; [exact H9|]. cbn. discriminate.
   - rewrite hist_app, He.
@@ -242,80 +192,55 @@ Proof.
       [now rewrite updv_same|now rewrite updv_other].
 Qed.
 
-(** an operation is invoked: it gets the next operation number *)
-Lemma Inv_pinv g a tr t (o : qop) es :
-  Inv g a tr ->
-  views a t = mkTV PIdle None mnull [] [] 0 None ->
-  hist (Conc.tag t es) = [@HInv Fifo t o] ->
-  Inv g (mkAux (dpre a) (bnd a) (live a) (hidx a)
-               (updv (views a) t (mkTV (PPend o (S (ninv a)) false) None mnull [] [] 0 None)) (born a) (S (ninv a)))
-      (tr ++ Conc.tag t es).
-Proof.
-  intros [H1 H2 H3 H4 H5 H6 H7 H8 H9 H10] Hv He.
-  constructor; auto; unfold GG in *; cbn [dpre bnd live hidx views born ninv] in *.
-  - intros x. others x t Hne; [facts_nil|].
-    eapply tv_ok_mono; [apply H8| | | | | |]; unfold GG; cbn [dpre bnd live hidx views born ninv]; auto;
-      try (intros; left; split; [assumption|reflexivity]).
-  - apply privs_upd; [exact H9|]. cbn. discriminate.
-  - rewrite hist_app, He. change [@HInv Fifo t o] with (perase [PInv t o]).
-    eapply pool_ext; [|eapply pool_event with (t := t) (s' := PPend o (S (ninv a)) false); [exact H10|]].
-    + intros x. cbn. unfold pupd. destruct (Nat.eqb_spec x t) as [->|Hne];
-        [now rewrite updv_same|now rewrite updv_other].
-    + intros f Hf. cbn beta in Hf. rewrite Hv in Hf. cbn in Hf. cbn [pstep ps_q ps_st ps_n]. rewrite Hf. reflexivity.
-Qed.
-
 (** ** node construction *)
-Lemma Inv_alloc g a tr t v id ob :
+Lemma Inv_alloc g a tr t v :
   Inv g a tr ->
-  views a t = mkTV (PPend (Enq v) id ob) None mnull [] [] 0 None ->
-  Inv (fst (fst (a_alloc v g))) (auxv a t (mkTV (PPend (Enq v) id ob) (Some (nalloc g)) mnull [] [] 0 None)) tr.
+  views a t = mkTV (PPend (Enq v)) None mnull [] [] 0 ->
+  Inv (fst (fst (a_alloc v g))) (auxv a t (mkTV (PPend (Enq v)) (Some (nalloc g)) mnull [] [] 0)) tr.
 Proof.
   intros [H1 H2 H3 H4 H5 H6 H7 H8 H9 H10] Hv. cbn [a_alloc fst].
   set (n := nalloc g).
   assert (HnL : ~ In n (GG a)) by (intros Hin; apply H5 in Hin; unfold n in Hin; lia).
   assert (Hagree : forall x, In x (GG a) -> upd (nxt g) n mnull x = nxt g x).
   { intros x Hx. unfold upd. destruct (Nat.eqb_spec x n) as [->|]; [contradiction|reflexivity]. }
-  constructor; unfold auxv, GG in *; cbn [dpre bnd live hidx views born ninv head tail nxt val nalloc]; auto.
+  constructor; unfold auxv, GG in *; cbn [dpre bnd live hidx views head tail nxt val nalloc]; auto.
   - eapply linked_ext; [|exact H2]. intros x Hx. unfold nptr. cbn. now rewrite Hagree.
   - intros x Hx. cbn. rewrite Hagree; auto. apply in_or_app. now left.
   - intros x Hx. cbn. rewrite Hagree; auto. apply in_or_app. now right.
   - intros x Hx. apply H5 in Hx. lia.
   - intros x. others x t Hne.
-    + destruct (H8 t) as (_ & _ & _ & _ & P5 & _). rewrite Hv in P5. cbn in P5.
-      split; [|facts_nil].
+    + split; [|facts_nil].
       cbn. intros m E. injection E as <-. fold n. unfold upd. rewrite !Nat.eqb_refl. auto.
-    + eapply tv_ok_mono; [apply H8| | | | | |]; unfold GG; cbn [dpre bnd live hidx views born ninv head tail nxt val nalloc]; auto;
-        try (intros; left; split; [assumption|reflexivity]).
+    + eapply tv_ok_mono; [apply H8| | | |]; unfold GG; cbn [dpre bnd live hidx views head tail nxt val nalloc]; auto.
       intros m _ Hm Hm1. fold n. unfold upd. destruct (Nat.eqb_spec m n) as [->|]; [unfold n in Hm; lia|].
       repeat split; auto.
   - apply privs_upd; [exact H9|]. cbn. intros m E x Hx E'. injection E as <-.
     destruct (H8 x) as (P1 & _). destruct (P1 _ E') as (A & _). unfold n in A. lia.
-  - match goal with |- PoolInv ?q _ _ _ => assert (Em : q = map (aitem g a) (live a)) end.
-    { apply map_ext_in. intros x Hx. unfold aitem. cbn. destruct (Nat.eqb_spec x n) as [->|]; [|reflexivity].
+  - assert (Em : map (fun x => if Nat.eqb x n then v else val g x) (live a) = map (val g) (live a)).
+    { apply map_ext_in. intros x Hx. destruct (Nat.eqb_spec x n) as [->|]; [|reflexivity].
       exfalso. apply HnL. apply in_or_app. right. now right. }
     rewrite Em. apply pool_upd; auto. now rewrite Hv.
 Qed.
 
 (** pNew->m_pNext.store( .. ): the node is still private *)
-Lemma Inv_st_next_priv g a tr t v id ob n pnx p inG idx hl wit :
+Lemma Inv_st_next_priv g a tr t v n pnx p inG idx hl :
   Inv g a tr ->
-  views a t = mkTV (PPend (Enq v) id ob) (Some n) pnx inG idx hl wit ->
-  Inv (set_next g n p) (auxv a t (mkTV (PPend (Enq v) id ob) (Some n) p inG idx hl wit)) tr.
+  views a t = mkTV (PPend (Enq v)) (Some n) pnx inG idx hl ->
+  Inv (set_next g n p) (auxv a t (mkTV (PPend (Enq v)) (Some n) p inG idx hl)) tr.
 Proof.
   intros [H1 H2 H3 H4 H5 H6 H7 H8 H9 H10] Hv.
-  destruct (H8 t) as (P1 & P2 & P3 & P4 & P5 & P6). rewrite Hv in P1, P2, P3, P4, P5, P6. cbn in P1, P2, P3, P4, P5, P6.
+  destruct (H8 t) as (P1 & P2 & P3 & P4). rewrite Hv in P1, P2, P3, P4. cbn in P1, P2, P3, P4.
   destruct (P1 n eq_refl) as (A & B & C & D).
   assert (Hagree : forall x, In x (GG a) -> upd (nxt g) n p x = nxt g x).
   { intros x Hx. unfold upd. destruct (Nat.eqb_spec x n) as [->|]; [contradiction|reflexivity]. }
-  constructor; unfold auxv, GG in *; cbn [set_next dpre bnd live hidx views born ninv head tail nxt val nalloc]; auto.
+  constructor; unfold auxv, GG in *; cbn [set_next dpre bnd live hidx views head tail nxt val nalloc]; auto.
   - eapply linked_ext; [|exact H2]. intros x Hx. unfold nptr. cbn. now rewrite Hagree.
   - intros x Hx. rewrite Hagree; auto. apply in_or_app. now left.
   - intros x Hx. rewrite Hagree; auto. apply in_or_app. now right.
   - intros x. others x t Hne.
-    + split; [|split; [exact P2|split; [exact P3|split; [exact P4|split; [exact P5|exact P6]]]]].
+    + split; [|split; [exact P2|split; [exact P3|exact P4]]].
       cbn. intros m E. injection E as <-. unfold upd. rewrite Nat.eqb_refl. auto.
-    + eapply tv_ok_mono; [apply H8| | | | | |]; unfold GG; cbn [set_next dpre bnd live hidx views born ninv head tail nxt val nalloc]; auto;
-        try (intros; left; split; [assumption|reflexivity]).
+    + eapply tv_ok_mono; [apply H8| | | |]; unfold GG; cbn [set_next dpre bnd live hidx views head tail nxt val nalloc]; auto.
       intros m Em Hm Hm1. repeat split; auto. unfold upd. destruct (Nat.eqb_spec m n) as [->|]; [|reflexivity].
       exfalso. apply (H9 x t n Hne Em). now rewrite Hv.
   - apply privs_upd; [exact H9|]. cbn. intros m E x Hx. injection E as <-. apply (H9 t x n); auto. now rewrite Hv.
@@ -360,23 +285,7 @@ Lemma nth_error_low {A} (P Q Q' : list A) i : (i < List.length P)%nat -> nth_err
 Proof. intros H. now rewrite !nth_error_app1. Qed.
 
 Definition auxset (a : Aux) (d : list nat) (b : nat) (l : list nat) (hi : nat) (t : nat) (v : tview) : Aux :=
-  mkAux d b l hi (updv (views a) t v) (born a) (ninv a).
-(** a node is linked: it is born now *)
-Definition bornat (a : Aux) (n : nat) : nat -> nat := fun x => if Nat.eqb x n then ninv a else born a x.
-Definition auxb (a : Aux) (l : list nat) (t : nat) (v : tview) (n : nat) : Aux :=
-  mkAux (dpre a) (bnd a) l (hidx a) (updv (views a) t v) (bornat a n) (ninv a).
-
-Lemma after_link a n (P Q : list nat) :
-  GG a = P ++ Q -> ~ In n (GG a) ->
-  forall tl0 y, In tl0 (GG a) -> In y (after tl0 (P ++ n :: Q)) ->
-    (In y (after tl0 (GG a)) /\ bornat a n y = born a y) \/ (ninv a <= bornat a n y)%nat.
-Proof.
-  intros EG Hn tl0 y Htl Hy. assert (Hne : n <> tl0) by (intros ->; contradiction).
-  destruct (after_insert _ _ _ _ _ Hne Hy) as [->|Hy'].
-  - right. unfold bornat. now rewrite Nat.eqb_refl.
-  - left. rewrite EG. split; [exact Hy'|]. unfold bornat. destruct (Nat.eqb_spec y n) as [->|]; [|reflexivity].
-    exfalso. apply Hn. rewrite EG. eapply after_incl; eauto.
-Qed.
+  mkAux d b l hi (updv (views a) t v).
 
 Lemma nodup_disj {A} (P Q : list A) x : NoDup (P ++ Q) -> In x P -> In x Q -> False.
 Proof.
@@ -386,16 +295,16 @@ Proof.
 Qed.
 
 (** ** enqueue takes effect: the new node becomes the last one *)
-Lemma Inv_link_end g a tr t v id ob n inG idx hl wit tl b :
+Lemma Inv_link_end g a tr t v n inG idx hl tl b :
   Inv g a tr ->
-  views a t = mkTV (PPend (Enq v) id ob) (Some n) mnull inG idx hl wit -> In tl inG ->
+  views a t = mkTV (PPend (Enq v)) (Some n) mnull inG idx hl -> In tl inG ->
   nxt g tl = (None, b) ->
   Inv (set_next g tl (Some n, false))
-      (auxb a (live a ++ [n]) t (mkTV (PLin (RBool true)) None mnull [n] [] 0 None) n) tr.
+      (auxset a (dpre a) (bnd a) (live a ++ [n]) (hidx a) t (mkTV (PLin (RBool true)) None mnull [n] [] 0)) tr.
 Proof.
   intros [H1 H2 H3 H4 H5 H6 H7 H8 H9 H10] Hv Hin Hnx.
   destruct (H8 t) as (P1 & P2 & _). rewrite Hv in P1, P2. cbn in P1, P2.
-  destruct (P1 n eq_refl) as (A & B & C & D). cbn in D. injection D as D.
+  destruct (P1 n eq_refl) as (A & B & C & D). injection D as D.
   pose proof (P2 tl Hin) as Htl.
   assert (Hnp : nptr g tl = None) by (unfold nptr; now rewrite Hnx).
   destruct (linked_last _ _ _ H2 Htl Hnp) as (l' & El).
@@ -407,7 +316,7 @@ Proof.
   { intros i x E. rewrite nth_error_app1; auto. apply nth_error_Some. congruence. }
   assert (Hpre : forall x, In x (dpre a) -> x <> tl).
   { intros x Hx ->. eapply nodup_disj; eauto. }
-  constructor; unfold auxb, GG; cbn [set_next dpre bnd live hidx views born ninv head tail nxt val nalloc]; rewrite ?EGG; fold (GG a).
+  constructor; unfold auxset, GG; cbn [set_next dpre bnd live hidx views head tail nxt val nalloc]; rewrite ?EGG; fold (GG a).
   - apply NoDup_snoc; auto.
   - rewrite El in *. apply NoDup_remove_2 in H1. rewrite app_nil_r in H1.
     eapply linked_snoc; eauto.
@@ -424,46 +333,36 @@ Proof.
   - intros x. others x t Hne2.
     + split; [cbn; intros; discriminate|]. split; [|facts_nil].
       cbn. intros m [<-|[]]. unfold GG. cbn. rewrite EGG. apply in_or_app. right. now left.
-    + eapply tv_ok_mono; [apply H8| | | | | |]; cbn [set_next dpre bnd live hidx views born ninv head tail nxt val nalloc]; auto.
+    + eapply tv_ok_mono; [apply H8| | | |]; cbn [set_next dpre bnd live hidx views head tail nxt val nalloc]; auto.
       * intros m Em Hm Hm1. repeat split; auto.
         -- unfold GG. cbn. rewrite EGG. intros Hi. apply in_app_or in Hi. destruct Hi as [Hi|[<-|[]]]; [contradiction|].
            apply (H9 x t n Hne2 Em). now rewrite Hv.
         -- unfold upd. destruct (Nat.eqb_spec m tl) as [->|]; [contradiction|reflexivity].
       * intros m Hm. unfold GG. cbn. rewrite EGG. apply in_or_app. now left.
       * intros x0 i E Hi. unfold GG. cbn. rewrite EGG. split; auto.
-      * intros tl0 y Htl0 Hy. unfold GG in Hy. cbn [dpre bnd live] in Hy. rewrite EGG in Hy.
-        eapply (after_link a n (GG a) []); eauto. now rewrite app_nil_r.
   - apply privs_upd; [exact H9|]. cbn. discriminate.
-  - assert (Eq : map (aitem (set_next g tl (Some n, false)) (auxb a (live a ++ [n]) t (mkTV (PLin (RBool true)) None mnull [n] [] 0 None) n)) (live a ++ [n])
-                 = map (aitem g a) (live a) ++ [(v, ninv a)]).
-    { rewrite map_app. cbn [map]. f_equal.
-      - apply map_ext_in. intros x Hx. unfold aitem, auxb, bornat. cbn. destruct (Nat.eqb_spec x n) as [->|]; [|reflexivity].
-        exfalso. apply B. unfold GG. apply in_or_app. right. now right.
-      - unfold aitem, auxb, bornat. cbn. rewrite Nat.eqb_refl, <- D. reflexivity. }
-    unfold auxb in Eq. cbn [live] in Eq. rewrite Eq. rewrite <- (app_nil_r (hist tr)).
+  - rewrite map_app. cbn [map]. rewrite <- D. rewrite <- (app_nil_r (hist tr)).
     change (@nil (hev Fifo)) with (perase [PEnq t (List.length (live a))]).
     eapply pool_ext; [|eapply pool_event with (t := t) (s' := PLin (RBool true)); [exact H10|]].
     + intros x. cbn. unfold pupd. destruct (Nat.eqb_spec x t) as [->|Hne2];
         [rewrite updv_same; reflexivity|now rewrite updv_other].
-    + intros f Hf. cbn beta in Hf. rewrite Hv in Hf. cbn in Hf. cbn [pstep ps_q ps_st ps_n]. rewrite Hf.
-      rewrite skipn_all2 by (rewrite map_length; lia). cbn [forallb].
+    + intros f Hf. cbn beta in Hf. rewrite Hv in Hf. cbn in Hf. cbn [pstep]. rewrite Hf.
       unfold insert_at. rewrite firstn_all2, skipn_all2 by (rewrite map_length; lia). reflexivity.
 Qed.
 
 (** ** enqueue takes effect: the new node enters the basket, right after [tl] *)
-Lemma Inv_link_basket g a tr t v id ob n s inG idx hl tl :
+Lemma Inv_link_basket g a tr t v n s inG idx hl tl :
   Inv g a tr ->
-  views a t = mkTV (PPend (Enq v) id ob) (Some n) (Some s, false) inG idx hl (Some tl) -> In tl inG ->
+  views a t = mkTV (PPend (Enq v)) (Some n) (Some s, false) inG idx hl -> In tl inG ->
   nxt g tl = (Some s, false) ->
   exists k,
   Inv (set_next g tl (Some n, false))
-      (auxb a (firstn k (live a) ++ n :: skipn k (live a)) t
-         (mkTV (PLin (RBool true)) None mnull [n] [] 0 None) n) tr.
+      (auxset a (dpre a) (bnd a) (firstn k (live a) ++ n :: skipn k (live a)) (hidx a) t
+         (mkTV (PLin (RBool true)) None mnull [n] [] 0)) tr.
 Proof.
   intros [H1 H2 H3 H4 H5 H6 H7 H8 H9 H10] Hv Hin Hnx.
-  destruct (H8 t) as (P1 & P2 & _ & _ & _ & P6). rewrite Hv in P1, P2, P6. cbn in P1, P2, P6.
-  destruct (P6 tl eq_refl) as (_ & Hwit).
-  destruct (P1 n eq_refl) as (A & B & C & D). cbn in D. injection D as D.
+  destruct (H8 t) as (P1 & P2 & _). rewrite Hv in P1, P2. cbn in P1, P2.
+  destruct (P1 n eq_refl) as (A & B & C & D). injection D as D.
   pose proof (P2 tl Hin) as Htl.
   assert (Htlpost : In tl (bnd a :: live a)).
   { unfold GG in Htl. apply in_app_or in Htl. destruct Htl as [Hd|Hp]; [|exact Hp].
@@ -496,7 +395,7 @@ Proof.
                              nth_error (dpre a ++ bnd a :: lv') i = Some x).
   { intros x i E Hi. rewrite EG2. rewrite EG1 in E. rewrite <- E. apply nth_error_low.
     rewrite !app_length. cbn. lia. }
-  constructor; unfold auxb, GG; cbn [set_next dpre bnd live hidx views born ninv head tail nxt val nalloc]; fold lv'; fold (GG a).
+  constructor; unfold auxset, GG; cbn [set_next dpre bnd live hidx views head tail nxt val nalloc]; fold lv'; fold (GG a).
   - rewrite EG2. apply NoDup_insert; [rewrite <- EG1; exact H1|rewrite <- EG1; exact B].
   - rewrite EGG. eapply linked_insert with (nx := nptr g).
     + rewrite <- EG0. exact H1.
@@ -521,57 +420,33 @@ Proof.
   - intros x. others x t Hne2.
     + split; [cbn; intros; discriminate|]. split; [|facts_nil].
       cbn. intros m [<-|[]]. unfold GG. cbn. fold lv'. rewrite EG2. apply in_or_app. right. now left.
-    + eapply tv_ok_mono; [apply H8| | | | | |]; cbn [set_next dpre bnd live hidx views born ninv head tail nxt val nalloc]; auto.
+    + eapply tv_ok_mono; [apply H8| | | |]; cbn [set_next dpre bnd live hidx views head tail nxt val nalloc]; auto.
       * intros m Em Hm Hm1. repeat split; auto.
         -- unfold GG. cbn. fold lv'. rewrite EG2. intros Hi. apply in_insert_inv in Hi. destruct Hi as [->|Hi].
            ++ apply (H9 x t n Hne2 Em). now rewrite Hv.
            ++ apply Hm1. rewrite EG1. exact Hi.
         -- unfold upd. destruct (Nat.eqb_spec m tl) as [->|]; [contradiction|reflexivity].
-      * intros tl0 y Htl0 Hy. unfold GG in Hy. cbn [dpre bnd live] in Hy. fold lv' in Hy. rewrite EG2 in Hy.
-        eapply (after_link a n ((dpre a ++ PA) ++ [tl]) (s :: PB')); eauto.
   - apply privs_upd; [exact H9|]. cbn. discriminate.
-  - set (a' := mkAux (dpre a) (bnd a) lv' (hidx a) (updv (views a) t (mkTV (PLin (RBool true)) None mnull [n] [] 0 None)) (bornat a n) (ninv a)).
-    assert (Hold : forall x, In x (live a) -> aitem (set_next g tl (Some n, false)) a' x = aitem g a x).
-    { intros x Hx. unfold aitem, a', bornat. cbn. destruct (Nat.eqb_spec x n) as [->|]; [|reflexivity].
-      exfalso. apply B. unfold GG. apply in_or_app. right. now right. }
-    assert (Eq : map (aitem (set_next g tl (Some n, false)) a') lv'
-                 = insert_at (List.length PA) (v, ninv a) (map (aitem g a) (live a))).
-    { unfold lv', insert_at. rewrite map_app. cbn [map]. rewrite firstn_map, skipn_map. f_equal; [|f_equal].
-      - apply map_ext_in. intros x Hx. apply Hold. eapply in_firstn_; eauto.
-      - unfold aitem, a', bornat. cbn. rewrite Nat.eqb_refl, <- D. reflexivity.
-      - apply map_ext_in. intros x Hx. apply Hold. eapply in_skipn_; eauto. }
-    fold a'. rewrite Eq. rewrite <- (app_nil_r (hist tr)).
+  - unfold lv'. rewrite map_app. cbn [map]. rewrite <- firstn_map, <- skipn_map, <- D.
+    rewrite <- (app_nil_r (hist tr)).
     change (@nil (hev Fifo)) with (perase [PEnq t (List.length PA)]).
     eapply pool_ext; [|eapply pool_event with (t := t) (s' := PLin (RBool true)); [exact H10|]].
     + intros x. cbn. unfold pupd. destruct (Nat.eqb_spec x t) as [->|Hne2];
         [rewrite updv_same; reflexivity|now rewrite updv_other].
-    + intros f Hf. cbn beta in Hf. rewrite Hv in Hf. cbn in Hf. cbn [pstep ps_q ps_st ps_n]. rewrite Hf.
-      assert (Hchk : forallb (fun x : item => Nat.leb id (snd x)) (skipn (List.length PA) (map (aitem g a) (live a))) = true).
-      { apply forallb_forall. intros x Hx. rewrite skipn_map in Hx. apply in_map_iff in Hx. destruct Hx as (y & <- & Hy).
-        cbn. apply Nat.leb_le. apply Hwit.
-        (* y is behind tl in the chain *)
-        rewrite EG0, after_notin.
-        - assert (Esk : skipn (List.length PA) (live a) = s :: PB').
-          { destruct PA as [|b0 PA']; cbn [List.length] in *.
-            - cbn in Epost. injection Epost as _ ->. reflexivity.
-            - cbn in Epost. injection Epost as _ ->. apply (split_at PA' tl (s :: PB')). }
-          rewrite Esk in Hy. exact Hy.
-        - intros Hc. rewrite EG0 in H1. apply NoDup_remove_2 in H1. apply H1. apply in_or_app. now left. }
-      rewrite Hchk. reflexivity.
+    + intros f Hf. cbn beta in Hf. rewrite Hv in Hf. cbn in Hf. cbn [pstep]. rewrite Hf. reflexivity.
 Qed.
 
-
 (** ** dequeue takes effect: the pointer leaving the boundary node gets its mark *)
-Lemma Inv_mark g a tr t id ob inG idx hl wit iter j x :
+Lemma Inv_mark g a tr t inG idx hl iter j x :
   Inv g a tr ->
-  views a t = mkTV (PPend Deq id ob) None mnull inG idx hl wit -> In (iter, j) idx ->
+  views a t = mkTV (PPend Deq) None mnull inG idx hl -> In (iter, j) idx ->
   nxt g iter = (Some x, false) ->
   Inv (set_next g iter (Some x, true))
       (auxset a (dpre a ++ [bnd a]) x (List.tl (live a)) (hidx a) t
-         (mkTV (PLin (RVal (Some (val g x)))) None mnull [] ((x, S j) :: idx) hl None)) tr.
+         (mkTV (PLin (RVal (Some (val g x)))) None mnull [] ((x, S j) :: idx) hl)) tr.
 Proof.
   intros [H1 H2 H3 H4 H5 H6 H7 H8 H9 H10] Hv Hin Hnx.
-  destruct (H8 t) as (_ & _ & P3 & P4 & _). rewrite Hv in P3, P4. cbn in P3, P4.
+  destruct (H8 t) as (_ & _ & P3 & P4). rewrite Hv in P3, P4. cbn in P3, P4.
   destruct (P3 iter j Hin) as (Ej & Hj).
   assert (Ejm : j = List.length (dpre a)).
   { destruct (Nat.eq_dec j (List.length (dpre a))) as [|Hne]; [assumption|exfalso].
@@ -589,7 +464,7 @@ Proof.
   assert (Hbx : forall y, In y (dpre a) \/ In y (x :: r') -> y <> bnd a).
   { intros y Hy ->. unfold GG in H1. rewrite Er in H1. apply NoDup_remove_2 in H1. apply H1.
     apply in_or_app. exact Hy. }
-  constructor; unfold auxset, GG; cbn [set_next dpre bnd live hidx views born ninv head tail nxt val nalloc];
+  constructor; unfold auxset, GG; cbn [set_next dpre bnd live hidx views head tail nxt val nalloc];
     rewrite ?Er; cbn [List.tl]; rewrite ?EGG; auto.
   - eapply linked_ext; [|exact H2]. intros y Hy. unfold nptr. cbn. unfold upd.
     destruct (Nat.eqb_spec y (bnd a)) as [->|]; [now rewrite Hnx|reflexivity].
@@ -600,27 +475,26 @@ Proof.
     + apply H4. rewrite Er. now right.
   - destruct H6 as (E1 & E2). split; [exact E1|]. rewrite app_length. cbn. lia.
   - intros y. others y t Hny.
-    + split; [cbn; intros; discriminate|]. split; [cbn; intros ? []|]. split; [|facts_nil; exact P4].
+    + split; [cbn; intros; discriminate|]. split; [cbn; intros ? []|]. split; [|cbn; exact P4].
       cbn. intros y i [E|Hi].
       * injection E as <- <-. unfold GG. cbn. rewrite EGG. split; [|rewrite app_length; cbn; lia].
         eapply linked_nth; [exact H2|exact Ej|]. unfold nptr. now rewrite Hnx.
       * destruct (P3 y i Hi) as (A1 & A2). unfold GG. cbn. rewrite EGG. split; [exact A1|].
         rewrite app_length. cbn. lia.
-    + eapply tv_ok_mono; [apply H8| | | | | |]; cbn [set_next dpre bnd live hidx views born ninv head tail nxt val nalloc]; auto.
+    + eapply tv_ok_mono; [apply H8| | | |]; cbn [set_next dpre bnd live hidx views head tail nxt val nalloc]; auto.
       * intros m Em Hm Hm1. repeat split; auto.
         -- unfold GG. cbn. rewrite EGG. exact Hm1.
         -- unfold upd. destruct (Nat.eqb_spec m (bnd a)) as [->|]; [|reflexivity].
            exfalso. apply Hm1. unfold GG. apply in_or_app. right. now left.
       * intros m Hm. unfold GG. cbn. rewrite EGG. exact Hm.
       * intros y0 i E Hi. unfold GG. cbn. rewrite EGG. split; [exact E|]. rewrite app_length. cbn. lia.
-      * intros tl0 y1 Htl0 Hy. left. unfold GG in Hy. cbn in Hy. rewrite EGG in Hy. split; [exact Hy|reflexivity].
   - apply privs_upd; [exact H9|]. cbn. discriminate.
   - rewrite Er in H10. cbn [map] in H10. rewrite <- (app_nil_r (hist tr)).
     change (@nil (hev Fifo)) with (perase [PDeq t]).
     eapply pool_ext; [|eapply pool_event with (t := t) (s' := PLin (RVal (Some (val g x)))); [exact H10|]].
     + intros y. cbn. unfold pupd. destruct (Nat.eqb_spec y t) as [->|Hny];
         [rewrite updv_same; reflexivity|now rewrite updv_other].
-    + intros f Hf. cbn beta in Hf. rewrite Hv in Hf. cbn in Hf. cbn [pstep ps_q ps_st ps_n]. rewrite Hf. reflexivity.
+    + intros f Hf. cbn beta in Hf. rewrite Hv in Hf. cbn in Hf. cbn [pstep]. rewrite Hf. reflexivity.
 Qed.
 
 (** ** free_chain moves head forward inside the deleted prefix *)
@@ -631,83 +505,25 @@ Lemma Inv_headcas g a tr t h i nh j :
   Inv (set_head g nh) (auxset a (dpre a) (bnd a) (live a) j t (views a t)) tr.
 Proof.
   intros [H1 H2 H3 H4 H5 H6 H7 H8 H9 H10] Hi Hj Hlt Hh.
-  destruct (H8 t) as (P1 & P2 & P3 & P4 & P5 & P6).
+  destruct (H8 t) as (P1 & P2 & P3 & P4).
   destruct (P3 h i Hi) as (Ei & Li). destruct (P3 nh j Hj) as (Ej & Lj).
   destruct H6 as (E1 & E2).
   assert (Ehi : hidx a = i).
   { apply (proj1 (NoDup_nth_error (GG a)) H1).
     - apply nth_error_Some. congruence.
     - rewrite E1, Ei. congruence. }
-  constructor; unfold auxset, GG in *; cbn [set_head dpre bnd live hidx views born ninv head tail nxt val nalloc]; auto.
+  constructor; unfold auxset, GG in *; cbn [set_head dpre bnd live hidx views head tail nxt val nalloc]; auto.
   - intros y. others y t Hny.
-    + split; [exact P1|]. split; [exact P2|]. split; [exact P3|]. split; [cbn; lia|]. split; [exact P5|exact P6].
-    + eapply tv_ok_mono; [apply H8| | | | | |]; unfold GG; cbn [set_head dpre bnd live hidx views born ninv head tail nxt val nalloc]; auto;
-        try (intros; left; split; [assumption|reflexivity]).
+    + split; [exact P1|]. split; [exact P2|]. split; [exact P3|]. cbn. lia.
+    + eapply tv_ok_mono; [apply H8| | | |]; unfold GG; cbn [set_head dpre bnd live hidx views head tail nxt val nalloc]; auto.
       lia.
   - apply privs_upd; [exact H9|]. intros n E y Hy. apply (H9 t y n); auto.
   - apply pool_upd; auto.
 Qed.
 
 (** ** initial state *)
-Definition v_idle : tview := mkTV PIdle None mnull [] [] 0 None.
-Definition aux0 : Aux := mkAux [] 0 [] 0 (fun _ => v_idle) (fun _ => 0%nat) 0.
-
-(** a pending dequeue sees a node of the deleted prefix whose next pointer is null: nothing is queued now *)
-Lemma Inv_obs g a tr t id ob inG idx hl wit y j v' :
-  Inv g a tr ->
-  views a t = mkTV (PPend Deq id ob) None mnull inG idx hl wit -> In (y, j) idx -> fst (nxt g y) = None ->
-  tv_st v' = PPend Deq id true -> tv_priv v' = None -> tv_pnx v' = mnull -> tv_wit v' = wit ->
-  (forall m, In m (tv_inG v') -> In m (GG a)) ->
-  (forall x i, In (x, i) (tv_idx v') -> nth_error (GG a) i = Some x /\ (i <= List.length (dpre a))%nat) ->
-  (tv_hlow v' <= hidx a)%nat ->
-  Inv g (auxv a t v') tr.
-Proof.
-  intros [H1 H2 H3 H4 H5 H6 H7 H8 H9 H10] Hv Hin Hnx Es Ep Ex Hw Hg Hi Hh.
-  destruct (H8 t) as (_ & _ & P3 & _ & P5 & P6). rewrite Hv in P3, P5, P6. cbn in P3, P5, P6.
-  destruct (P3 y j Hin) as (Ej & Lj).
-  assert (Elive : live a = []).
-  { destruct (linked_last _ _ _ H2 (nth_error_In _ _ Ej) Hnx) as (l' & El).
-    assert (Hlen : List.length (GG a) = S j).
-    { assert (Ej' : nth_error (GG a) (List.length l') = Some y) by (rewrite El, nth_error_app2, Nat.sub_diag by lia; reflexivity).
-      assert (j = List.length l').
-      { apply (proj1 (NoDup_nth_error (GG a)) H1); [apply nth_error_Some; congruence|congruence]. }
-      rewrite El, app_length. cbn. lia. }
-    unfold GG in Hlen. rewrite app_length in Hlen. cbn in Hlen. destruct (live a); [reflexivity|cbn in Hlen; lia]. }
-  constructor; auto; unfold auxv, GG in *; cbn [dpre bnd live hidx views born ninv] in *.
-  - intros x. others x t Hne; [|apply H8]. split; [rewrite Ep; intros; discriminate|].
-    split; [exact Hg|]. split; [exact Hi|]. split; [exact Hh|]. rewrite Es, Hw. cbn. split; [exact P5|exact P6].
-  - apply privs_upd; [exact H9|]. rewrite Ep. discriminate.
-  - rewrite Elive in *. cbn [map] in *. rewrite <- (app_nil_r (hist tr)).
-    change (@nil (hev Fifo)) with (perase [PObs t]).
-    eapply pool_ext; [|eapply pool_event with (t := t) (s' := PPend Deq id true); [exact H10|]].
-    + intros x. cbn. unfold pupd. destruct (Nat.eqb_spec x t) as [->|Hne];
-        [rewrite updv_same; exact Es|now rewrite updv_other].
-    + intros f Hf. cbn beta in Hf. rewrite Hv in Hf. cbn in Hf. cbn [pstep ps_q ps_st ps_n]. rewrite Hf. reflexivity.
-Qed.
-
-(** an enqueuer sees the node it read as tail with a null next pointer: nothing is behind that node now *)
-Lemma Inv_wit g a tr t v' tl :
-  Inv g a tr ->
-  tv_st v' = tv_st (views a t) -> tv_priv v' = tv_priv (views a t) -> tv_pnx v' = tv_pnx (views a t) ->
-  In tl (GG a) -> fst (nxt g tl) = None -> tv_wit v' = Some tl ->
-  (forall m, In m (tv_inG v') -> In m (GG a)) ->
-  (forall x i, In (x, i) (tv_idx v') -> nth_error (GG a) i = Some x /\ (i <= List.length (dpre a))%nat) ->
-  (tv_hlow v' <= hidx a)%nat ->
-  Inv g (auxv a t v') tr.
-Proof.
-  intros [H1 H2 H3 H4 H5 H6 H7 H8 H9 H10] Es Ep Ex Htl Hnx Hw Hg Hi Hh.
-  destruct (linked_last _ _ _ H2 Htl Hnx) as (l' & El).
-  assert (Eaft : after tl (GG a) = []).
-  { rewrite El. apply after_notin. rewrite El in H1. apply NoDup_remove_2 in H1. now rewrite app_nil_r in H1. }
-  constructor; auto; unfold auxv, GG in *; cbn [dpre bnd live hidx views born ninv] in *.
-  - intros x. others x t Hne; [|apply H8].
-    destruct (H8 t) as (P1 & _ & _ & _ & P5 & _). split; [|].
-    { intros n E. rewrite Ep in E. rewrite Es, Ex. apply (P1 n E). }
-    split; [exact Hg|]. split; [exact Hi|]. split; [exact Hh|]. rewrite Es. split; [exact P5|].
-    intros tl0 E. rewrite Hw in E. injection E as E. subst tl0. split; [exact Htl|]. cbn. rewrite Eaft. intros y [].
-  - apply privs_upd; [exact H9|]. intros n E x Hx. rewrite Ep in E. apply (H9 t x n); auto.
-  - apply pool_upd; auto.
-Qed.
+Definition v_idle : tview := mkTV PIdle None mnull [] [] 0.
+Definition aux0 : Aux := mkAux [] 0 [] 0 (fun _ => v_idle).
 
 Lemma Inv_init : Inv init aux0 [].
 Proof.
